@@ -128,12 +128,14 @@ PROPS["C18"] = {
     "assumptions": ["goroutine states reported by runtime.Stack are exact (stop-the-world snapshot)"],
     "tiers": {
         "quick": [
+            {"run": "^TestLockedReader$", "checks": 3000, "shards": 1},
             {"run": "^TestExhaustiveSmall$", "shards": 14, "timeout": 900},
             {"run": "^TestScheduled$", "checks": 1500, "shards": 1},
             {"run": "^TestFree$", "checks": 300, "shards": 1},
             {"run": "^TestStress$", "shards": 1},
         ],
         "thorough": [
+            {"run": "^TestLockedReader$", "checks": 200000, "shards": 2},
             {"run": "^TestExhaustiveSmall$", "shards": 16, "timeout": 7000},
             {"run": "^TestScheduled$", "checks": 60000, "shards": 4},
             {"run": "^TestFree$", "checks": 6000, "shards": 2},
